@@ -50,6 +50,11 @@ Proof.
   intros. unfold mc_set. simpl. rewrite (path_eqb_neq p q) by congruence. apply mc_get_remove_other. auto.
 Qed.
 
+(* the error branch of run_import removes the failed module's own entry -- this is where the statement
+   read from vm.rs (GenModPins.failure_cleanup) enters the proofs *)
+Lemma cleanup_cache_eq : forall p c, cleanup_cache p c = mc_remove p c.
+Proof. reflexivity. Qed.
+
 (* ---------- heap ---------- *)
 Lemma heap_get_put_same : forall id o h, heap_get id ((id, o) :: h) = o.
 Proof. intros. simpl. rewrite N.eqb_refl. reflexivity. Qed.
@@ -333,7 +338,7 @@ Section Preserve.
 
     Lemma run_item_good : forall force it, good_items (fun f s => run_item C rec force f s it).
     Proof.
-      intros force it f s r s' Hwf H. destruct it as [m|sp|m alias caught|k e|k e|e| |t b|b]; simpl in H.
+      intros force it f s r s' Hwf H. destruct it as [m|sp|m alias caught|k e|k e|e| |t b|b| ]; simpl in H.
       - (* Marker *) inversion H; subst. eapply good_simple_then; eauto using Rel_refl. apply Simple_emit. exact I.
       - (* Import *)
         destruct sp as [m alias|m its|m].
@@ -376,6 +381,7 @@ Section Preserve.
       - (* Fail *) inversion H; subst. split; auto. exists []. apply Rel_refl.
       - (* DefineTest *) inversion H; subst. eapply good_simple_then; eauto using Rel_refl. apply Simple_put.
       - (* DefineMain *) inversion H; subst. eapply good_simple_then; eauto using Rel_refl. apply Simple_put.
+      - (* SyntaxError *) inversion H; subst. split; auto. exists []. apply Rel_refl.
     Qed.
 
     Lemma run_items_good : forall force its, good_items (fun f s => run_items C rec force f s its).
@@ -420,6 +426,8 @@ Section ImportGood.
     { inversion H; subst. split; auto. exists []. split; [apply Rel_refl | reflexivity]. }
     destruct (find_module C nm (fdir f)) as [p|].
     2:{ inversion H; subst. split; auto. exists []. split; [apply Rel_refl | reflexivity]. }
+    match type of H with (if ?b then _ else _) = _ => destruct b end.
+    { inversion H; subst. split; auto. exists []. split; [apply Rel_refl | reflexivity]. }
     set (lfc := existsb (path_eqb p) (chunks s)) in *.
     set (s1 := if lfc then s else set_chunks (p :: chunks s) s) in *.
     assert (W1 : WF s1). { unfold s1. destruct lfc; auto. apply WF_set_chunks; auto. }
@@ -538,7 +546,7 @@ Section ImportGood.
           -- cbn [exports next_id mcache chunks heap trace set_exports set_mcache emit]. pose proof (wf_exports _ Hwf). rewrite (r_heap _ _ _ R4); rewrite ?F2, ?F3; try lia.
              rewrite F4. rewrite heap_get_put_other by lia. reflexivity.
       + (* the load failed *)
-        apply Hcommon in E4 as [W4 [em R4]]. inversion H; subst. clear H.
+        apply Hcommon in E4 as [W4 [em R4]]. inversion H; subst. clear H. rewrite cleanup_cache_eq.
         assert (Hp4 : mc_get p (mcache s4) = Some None) by (apply (r_nones _ _ _ R4); exact Hs0p).
         split.
         * constructor; cbn [exports next_id mcache chunks heap trace set_exports set_mcache emit].
@@ -598,6 +606,7 @@ Lemma host_run_good : forall C fuel force d body s r s',
     WF s -> host_run C fuel force d body s = Some (r, s') -> WF s' /\ exists em, Rel s s' em.
 Proof.
   intros C fuel force d body s r s' Hwf H. unfold host_run in H.
+  destruct (broken body). { inversion H; subst. split; auto. exists []. apply Rel_refl. }
   destruct (run_items C (imp C fuel) force (new_frame (exports s) d) s body) as [[[fb|e] sb]|] eqn:E; try discriminate.
   - apply (run_items_good C _ (imp_good C fuel)) in E as [Wb [em Rb]]; auto.
     inversion H as [H']. destruct (call_main None sb) as [r2 s2] eqn:E2. inversion H'; subst.
@@ -624,13 +633,13 @@ Proof. constructor; simpl; [lia | intros p id H; discriminate]. Qed.
 
 (* ---------- the load of an uncached module starts by running its chunk ---------- *)
 Lemma uncached_import_runs_chunk : forall C rec f nm all s p r s',
-    good rec -> WF s ->
+    good rec -> WF s -> file_broken C p = false ->
     non_local C s f nm = None -> find_module C nm (fdir f) = Some p -> mc_get p (mcache s) = None ->
     run_import C rec f nm all s = Some (r, s') ->
     exists em, trace s' = trace s ++ EvRun p :: em.
 Proof.
-  intros C rec f nm all s p r s' Hrec Hwf Hnl Hfm Hmc H.
-  unfold run_import in H. rewrite Hnl, Hfm in H.
+  intros C rec f nm all s p r s' Hrec Hwf Hbr Hnl Hfm Hmc H.
+  unfold run_import in H. rewrite Hnl, Hfm in H. unfold file_broken in Hbr. rewrite Hbr, andb_false_r in H.
   set (lfc := existsb (path_eqb p) (chunks s)) in *.
   set (s1 := if lfc then s else set_chunks (p :: chunks s) s) in *.
   assert (W1 : WF s1). { unfold s1. destruct lfc; auto. apply WF_set_chunks; auto. }
@@ -712,6 +721,7 @@ Proof.
   intros C rec f nm all s v f' s' H. unfold run_import in H.
   destruct (non_local C s f nm). { inversion H; subst. apply successful_import_frame. }
   destruct (find_module C nm (fdir f)) as [p|]; try discriminate.
+  match type of H with (if ?b then _ else _) = _ => destruct b end; try discriminate.
   match type of H with context [mc_get p ?c] => destruct (mc_get p c) as [[id|]|] end.
   - destruct (existsb (path_eqb p) (chunks s)).
     + inversion H; subst. apply successful_import_frame.
@@ -765,7 +775,7 @@ Section Exports.
     assert (Hcur : forall s1, exports s1 = exports s /\ cur_obj s1 = cur_obj s ->
                               exports s1 = exports s /\ exported s1 k = exported s k).
     { intros s1 [E1 E2]. split; auto. unfold exported. rewrite E2. reflexivity. }
-    destruct it as [m|sp|m alias caught|j e|j e|e| |t b|b]; simpl in H.
+    destruct it as [m|sp|m alias caught|j e|j e|e| |t b|b| ]; simpl in H.
     - inversion H; subst. auto.
     - destruct sp as [m alias|m its|m].
       + destruct (import_item rec f s m false) as [[[[v f1]|e] s1]|] eqn:E; try discriminate;
@@ -792,6 +802,7 @@ Section Exports.
     - inversion H; subst; auto.
     - inversion H; subst. split; auto. apply exported_export_test.
     - inversion H; subst. split; auto. apply exported_export_main.
+    - inversion H; subst. auto.
   Qed.
 
   Lemma run_items_keeps_export : forall k its f s r s',
@@ -881,7 +892,7 @@ Section Exports.
     assert (Hcur : forall f1 s1, locals f1 = locals f -> exports s1 = exports s /\ cur_obj s1 = cur_obj s ->
                                  locals_exported f1 s1).
     { intros f1 s1 E0 [E1 E2]. apply (locals_exported_same f f1 s s1); auto. intro k. unfold exported. rewrite E2. reflexivity. }
-    destruct it as [m|sp|m alias caught|j e|j e|e| |t b|b]; simpl in H; simpl in Hp; try discriminate.
+    destruct it as [m|sp|m alias caught|j e|j e|e| |t b|b| ]; simpl in H; simpl in Hp; try discriminate.
     - inversion H; subst. exact Hl.
     - destruct sp as [m alias|m its|m]; try discriminate.
       + destruct (import_item rec f s m false) as [[[[v f1]|e] s1]|] eqn:E; try discriminate.
@@ -942,11 +953,13 @@ Lemma no_placeholder_init : no_placeholder init_st.
 Proof. intros p H. discriminate. Qed.
 
 Theorem T_cycle_is_error : forall C rec f nm all s p,
+    file_broken C p = false ->
     non_local C s f nm = None -> find_module C nm (fdir f) = Some p -> mc_get p (mcache s) = Some None ->
     exists s', run_import C rec f nm all s = Some (Err ECycle, s') /\
                mcache s' = mcache s /\ trace s' = trace s /\ heap s' = heap s /\ exports s' = exports s.
 Proof.
-  intros C rec f nm all s p Hnl Hfm Hc. unfold run_import. rewrite Hnl, Hfm.
+  intros C rec f nm all s p Hbr Hnl Hfm Hc. unfold run_import. rewrite Hnl, Hfm.
+  unfold file_broken in Hbr. rewrite Hbr, andb_false_r.
   destruct (existsb (path_eqb p) (chunks s)); cbn [mcache set_chunks]; rewrite Hc; eexists; split; try reflexivity; auto.
 Qed.
 
@@ -974,13 +987,13 @@ Qed.
 
 Theorem T_reimport_after_failure_runs_again : forall C fuel f nm all s r s1 em p,
     WF s -> imp C fuel f nm all s = Some (r, s1) -> trace s1 = trace s ++ em ->
-    In (EvRun p) em -> ~ In (EvLoaded p) em ->
+    In (EvRun p) em -> ~ In (EvLoaded p) em -> file_broken C p = false ->
     mc_get p (mcache s1) = None /\
     forall fuel2 f2 nm2 all2 r2 s2,
       non_local C s1 f2 nm2 = None -> find_module C nm2 (fdir f2) = Some p ->
       imp C (S fuel2) f2 nm2 all2 s1 = Some (r2, s2) -> exists em2, trace s2 = trace s1 ++ EvRun p :: em2.
 Proof.
-  intros C fuel f nm all s r s1 em p Hwf H Htr Hrun Hnl.
+  intros C fuel f nm all s r s1 em p Hwf H Htr Hrun Hnl Hbr.
   apply imp_good in H as [W1 [em' [R _]]]; auto.
   assert (em' = em) as ->. { pose proof (r_trace _ _ _ R) as E. rewrite Htr in E. apply app_inv_head in E. auto. }
   assert (Hs : mc_get p (mcache s) = None).
@@ -1052,4 +1065,38 @@ Proof.
   intros C fuel d its s f' s' Hwf Hp H.
   eapply (run_items_locals_exported C (imp C fuel) (imp_good C fuel) (imp_frame_ok C fuel)); eauto.
   intros k v Hk. simpl in Hk. discriminate.
+Qed.
+
+(* a failing import removes only its own placeholder: every module that was in the middle of being
+   imported still is, whether the failure is caught or not ... *)
+Theorem T_failed_import_keeps_other_placeholders : forall C fuel f nm all s e s' q,
+    WF s -> imp C fuel f nm all s = Some (Err e, s') ->
+    mc_get q (mcache s) = Some None -> mc_get q (mcache s') = Some None.
+Proof.
+  intros C fuel f nm all s e s' q Hwf H Hq. apply imp_good in H as [_ [em [R _]]]; auto.
+  apply (r_nones _ _ _ R). exact Hq.
+Qed.
+
+(* ... so that cycle detection still fires afterwards: an import that leads back to a module still
+   being imported is the recursive-import error, also after any number of failed (caught) imports *)
+Theorem T_cycle_detected_after_failed_import : forall C fuel f nm all s e s1 q rec f2 nm2 all2,
+    WF s -> imp C fuel f nm all s = Some (Err e, s1) ->
+    mc_get q (mcache s) = Some None -> file_broken C q = false ->
+    non_local C s1 f2 nm2 = None -> find_module C nm2 (fdir f2) = Some q ->
+    exists s2, run_import C rec f2 nm2 all2 s1 = Some (Err ECycle, s2) /\ trace s2 = trace s1.
+Proof.
+  intros C fuel f nm all s e s1 q rec f2 nm2 all2 Hwf H Hq Hbr Hnl Hfm.
+  pose proof (T_failed_import_keeps_other_placeholders _ _ _ _ _ _ _ _ q Hwf H Hq) as Hq1.
+  destruct (T_cycle_is_error C rec f2 nm2 all2 s1 q Hbr Hnl Hfm Hq1) as [s2 [E [_ [T _]]]].
+  exists s2. split; auto.
+Qed.
+
+(* a module that does not compile: nothing runs, nothing is cached *)
+Theorem T_compile_error_leaves_nothing : forall C rec f nm all s p,
+    non_local C s f nm = None -> find_module C nm (fdir f) = Some p ->
+    existsb (path_eqb p) (chunks s) = false -> file_broken C p = true ->
+    run_import C rec f nm all s = Some (Err ECompile, s).
+Proof.
+  intros C rec f nm all s p Hnl Hfm Hch Hbr. unfold run_import. rewrite Hnl, Hfm, Hch.
+  unfold file_broken in Hbr. rewrite Hbr. reflexivity.
 Qed.
